@@ -181,6 +181,17 @@ theorem scalar_agree (t : Ty) (o : FieldOpt) (w : WireVal) (p : Bytes) (cur cur'
     subst h
     refine ⟨by simp only [codecFor, codecOf, Codec.wire, wireNum, num_varint, num_fixed32, num_fixed64, num_varlen], ?_⟩
     simp only [codecFor, codecOf, decodeU, decodeVarlen_tok pl body hl, Res.bind]
+  case arr n e =>
+    -- the reference accepts a payload of exactly `n` bytes only; `copy` then takes all of it
+    have := isByte_eq e ht; subst this
+    cases w <;> simp only [decodeOne] at h <;> try contradiction
+    rename_i body
+    obtain ⟨pl, hl, rfl⟩ := hp
+    obtain ⟨hbl, rfl⟩ := ite_some h
+    refine ⟨by simp only [codecFor, codecOf, Codec.wire, wireNum, num_varint, num_fixed32, num_fixed64, num_varlen], ?_⟩
+    simp only [codecFor, codecOf, decodeU, decodeVarlen_tok pl body hl, Res.bind]
+    subst hbl
+    simp
   case int k =>
     cases k <;> simp only [supportedKind] at ht <;> try (exact absurd ht (by decide))
     case int =>
